@@ -262,6 +262,13 @@ func c01Run(cs *c01Case) (msg string, compiled, executed bool) {
 		return "", true, err == nil
 	case "FromCache":
 		tpl, err = set.FromCache(cs.Entry)
+		// the cache is usable afterwards, whether that worked or not
+		tpl2, err2 := set.FromCache(cs.Entry)
+		if (err == nil) != (err2 == nil) || (err == nil && tpl2 != tpl) {
+			return fmt.Sprintf("FromCache twice: first (tpl=%v err=%v), then (tpl=%v err=%v)\n src=%q", tpl != nil, err, tpl2 != nil, err2, src), false, false
+		}
+		set.CleanCache(cs.Entry)
+		set.CleanCache()
 	case "FromString":
 		tpl, err = set.FromString(src)
 	case "FromBytes":
